@@ -145,8 +145,8 @@ theorem flatMap_etag (H : Hashes) (bs : List Bytes) :
 
 /-- `CalculateMultipartChecksums` on the stored rows of the parts = the spec values of the
 assembled object. -/
-theorem calculateMultipart_pm (H : Hashes) (bs : List Bytes) (ct : CType) :
-    calculateMultipart H (bs.map (pm H)) ct = specVals H ⟨bs, kindOf ct⟩ := by
+theorem calculateMultipart_pm (H : Hashes) (bs : List Bytes) (ct : CType) (ob : Bool) :
+    calculateMultipart H (bs.map (pm H)) ct = specVals H ⟨bs, kindOf ct, ob⟩ := by
   cases ct with
   | composite =>
     simp only [calculateMultipart, specVals, kindOf, etagOfParts, flatMap_etag, List.length_map]
@@ -223,13 +223,13 @@ theorem abs_setUpload (H : Hashes) (g : GState) (k : Nat) (u : GUpload) :
   simp only [absState]; rw [setKey_map (absUpload H)]
 
 theorem single_vals (H : Hashes) (body : Bytes) :
-    specVals H ⟨[body], .single⟩ = (digestsOf H body).values := by
+    specVals H ⟨[body], .single, false⟩ = (digestsOf H body).values := by
   simp [specVals, GObj.content]
 
 theorem absObj_single (H : Hashes) (body : Bytes) :
-    absObj H ⟨[body], .single⟩ =
+    absObj H ⟨[body], .single, false⟩ =
       { vals := (digestsOf H body).values, ctype := .fullObject, size := (digestsOf H body).size,
-        parts := [(digestsOf H body).partMeta] } := by
+        parts := [(digestsOf H body).partMeta], oneBased := false } := by
   simp [absObj, single_vals, specCType, GObj.content, digestsOf]
 
 theorem step_put (H : Hashes) (strict : Bool) (g : GState) (key : Nat) (body : Bytes)
@@ -265,7 +265,7 @@ theorem step_create (H : Hashes) (strict : Bool) (g : GState) (uid key : Nat) (c
   have e : ({ key := key, ctype := ct, parts := [] } : Upload) = absUpload H ⟨key, ct, []⟩ := rfl
   rw [e, abs_setUpload]
 
-theorem specCType_kindOf (bs : List Bytes) (ct : CType) : specCType ⟨bs, kindOf ct⟩ = ct := by
+theorem specCType_kindOf (bs : List Bytes) (ct : CType) (ob : Bool) : specCType ⟨bs, kindOf ct, ob⟩ = ct := by
   cases ct <;> rfl
 
 theorem step_complete (H : Hashes) (strict : Bool) (g : GState) (uid : Nat) (input : Option Input) :
@@ -281,15 +281,15 @@ theorem step_complete (H : Hashes) (strict : Bool) (g : GState) (uid : Nat) (inp
     have hcont : contiguousFrom 1 (absUpload H u).parts = contiguousBodies 1 u.parts := contiguous_map H 1 u.parts
     have hct : (absUpload H u).ctype = u.ctype := rfl
     have hkey : (absUpload H u).key = u.key := rfl
-    rw [hparts, hcont, hct, hkey, calculateMultipart_pm]
+    rw [hparts, hcont, hct, hkey, calculateMultipart_pm H _ _ true]
     split
     · rfl
     · split
       · rfl
-      · have e : ({ vals := specVals H ⟨u.parts.map (·.2), kindOf u.ctype⟩, ctype := u.ctype,
+      · have e : ({ vals := specVals H ⟨u.parts.map (·.2), kindOf u.ctype, true⟩, ctype := u.ctype,
                     size := (((u.parts.map (·.2)).map (pm H)).map (·.size)).sum,
-                    parts := (u.parts.map (·.2)).map (pm H) } : Obj)
-            = absObj H ⟨u.parts.map (·.2), kindOf u.ctype⟩ := by
+                    parts := (u.parts.map (·.2)).map (pm H), oneBased := true } : Obj)
+            = absObj H ⟨u.parts.map (·.2), kindOf u.ctype, true⟩ := by
           simp only [absObj, sum_sizes, specCType_kindOf, GObj.content]
         rw [e]
         simp only [absState]
@@ -315,15 +315,16 @@ theorem step_copy (H : Hashes) (strict : Bool) (g : GState) (src dst : Nat) :
   | none => rfl
   | some so =>
     simp only [Option.map_some]
-    rw [abs_setObject]
+    have e : ({ absObj H so with oneBased := false } : Obj) = absObj H { so with oneBased := false } := rfl
+    rw [e, abs_setObject]
     rfl
 
 theorem step_copyRange (H : Hashes) (strict : Bool) (g : GState) (src dst : Nat) (body : Bytes) :
     step H strict (absState H g) (.copyRange src dst (digestsOf H body))
       = (match lookup src g.objects with
          | none => (absState H g, .err .noSuchKey)
-         | some _ => (absState H { g with objects := setKey dst ⟨[body], .single⟩ g.objects },
-                      .ok { etag := (specVals H ⟨[body], .single⟩).etag } none none)) := by
+         | some _ => (absState H { g with objects := setKey dst ⟨[body], .single, false⟩ g.objects },
+                      .ok { etag := (specVals H ⟨[body], .single, false⟩).etag } none none)) := by
   simp only [step, lookup_objects]
   cases lookup src g.objects with
   | none => rfl
@@ -331,21 +332,21 @@ theorem step_copyRange (H : Hashes) (strict : Bool) (g : GState) (src dst : Nat)
     simp only [Option.map_some]
     rw [← absObj_single, abs_setObject, single_vals]
 
+/-- The object row `AppendObject` writes. -/
+def appendedRow (H : Hashes) (oldParts : List Bytes) (body : Bytes) : Obj :=
+  { vals := { etag := (calculateMultipart H
+      (List.map stripRow (oldParts.map (pm H) ++ [(digestsOf H body).partMeta])) CType.fullObject).etag },
+    ctype := CType.fullObject,
+    size := oldParts.flatten.length + (digestsOf H body).size,
+    parts := oldParts.map (pm H) ++ [(digestsOf H body).partMeta] }
+
 theorem append_core (H : Hashes) (g : GState) (key : Nat) (body : Bytes) (oldParts : List Bytes) :
-    (({ objects := setKey key
-          { vals := { etag := (calculateMultipart H
-                (List.map stripRow (oldParts.map (pm H) ++ [(digestsOf H body).partMeta])) CType.fullObject).etag },
-            ctype := CType.fullObject,
-            size := oldParts.flatten.length + (digestsOf H body).size,
-            parts := oldParts.map (pm H) ++ [(digestsOf H body).partMeta] }
-          (absState H g).objects,
-        uploads := (absState H g).uploads } : State),
-      Out.ok { etag := (calculateMultipart H
-                (List.map stripRow (oldParts.map (pm H) ++ [(digestsOf H body).partMeta])) CType.fullObject).etag }
-        none (some (oldParts.flatten.length + (digestsOf H body).size)))
-    = (absState H { g with objects := setKey key (GObj.mk (oldParts ++ [body]) .appended) g.objects },
-       Out.ok { etag := (specVals H ⟨oldParts ++ [body], .appended⟩).etag } none
-        (some (GObj.content ⟨oldParts ++ [body], .appended⟩).length)) := by
+    (({ absState H g with objects := setKey key (appendedRow H oldParts body) (absState H g).objects } : State),
+      Out.ok { etag := (appendedRow H oldParts body).vals.etag } none (some (appendedRow H oldParts body).size))
+    = (absState H { g with objects := setKey key (GObj.mk (oldParts ++ [body]) .appended false) g.objects },
+       Out.ok { etag := (specVals H ⟨oldParts ++ [body], .appended, false⟩).etag } none
+        (some (GObj.content ⟨oldParts ++ [body], .appended, false⟩).length)) := by
+  unfold appendedRow
   have hall : oldParts.map (pm H) ++ [(digestsOf H body).partMeta] = (oldParts ++ [body]).map (pm H) := by
     simp
   rw [hall]
@@ -355,13 +356,13 @@ theorem append_core (H : Hashes) (g : GState) (key : Nat) (body : Bytes) (oldPar
   rw [hsz]
   have e : ({ vals := { etag := some (etagOfParts H (oldParts ++ [body])) }, ctype := .fullObject,
               size := (oldParts ++ [body]).flatten.length, parts := (oldParts ++ [body]).map (pm H) } : Obj)
-        = absObj H ⟨oldParts ++ [body], .appended⟩ := by
+        = absObj H ⟨oldParts ++ [body], .appended, false⟩ := by
     simp [absObj, specVals, specCType, GObj.content]
   rw [e]
-  have := abs_setObject H g key ⟨oldParts ++ [body], .appended⟩
+  have := abs_setObject H g key ⟨oldParts ++ [body], .appended, false⟩
   simp only [] at this
   rw [this]
-  simp [specVals, GObj.content]
+  simp [specVals, GObj.content, absObj]
 
 theorem step_append (H : Hashes) (strict : Bool) (g : GState) (key : Nat) (body : Bytes)
     (input : Option Input) :
@@ -370,9 +371,22 @@ theorem step_append (H : Hashes) (strict : Bool) (g : GState) (key : Nat) (body 
   simp only [step, gstep, lookup_objects]
   split
   · rfl
-  · cases lookup key g.objects with
-    | none => exact append_core H g key body []
-    | some o => exact append_core H g key body o.parts
+  · have hv : (absState H g).versioned = g.versioned := rfl
+    rw [hv]
+    cases lookup key g.objects with
+    | none =>
+      have hc : appendCollides g.versioned (Option.map (absObj H) none) = gAppendCollides g.versioned none := rfl
+      rw [hc]
+      split
+      · rfl
+      · exact append_core H g key body []
+    | some o =>
+      have hc : appendCollides g.versioned (Option.map (absObj H) (some o)) = gAppendCollides g.versioned (some o) := by
+        simp [appendCollides, gAppendCollides, absObj]
+      rw [hc]
+      split
+      · rfl
+      · exact append_core H g key body o.parts
 
 theorem covered_or_streamed (H : Hashes) (so : GObj) (start stop : Nat) :
     chooseCopiedRow (findCovered start stop 0 (absObj H so).parts)
@@ -445,5 +459,65 @@ theorem run_refines (H : Hashes) (strict : Bool) (g : GState) (ops : List BOp) :
     · rw [hp, step_refines]
     · rw [step_refines] at hp
       exact ih _ p hp
+
+/-- The stored state after any history is the abstraction of the contents after that history. -/
+theorem final_abs (H : Hashes) (strict : Bool) (g : GState) (ops : List BOp) :
+    (finalBoth H strict (absState H g, g) ops).1 = absState H (finalBoth H strict (absState H g, g) ops).2 := by
+  induction ops generalizing g with
+  | nil => rfl
+  | cons bop rest ih =>
+    simp only [finalBoth]
+    rw [step_refines]
+    exact ih _
+
+/-! ### ValidateChecksums -/
+
+/-- Some supplied value differs from what was computed (or nothing was computed for it). -/
+def Disagrees (i : Input) (cv : Values) : Prop :=
+  (∃ x, i.etag = some x ∧ cv.etag ≠ some x) ∨ (∃ x, i.crc32 = some x ∧ cv.crc32 ≠ some x) ∨
+  (∃ x, i.crc32c = some x ∧ cv.crc32c ≠ some x) ∨ (∃ x, i.crc64 = some x ∧ cv.crc64 ≠ some x) ∨
+  (∃ x, i.sha1 = some x ∧ cv.sha1 ≠ some x) ∨ (∃ x, i.sha256 = some x ∧ cv.sha256 ≠ some x)
+
+/-- Some supplied value differs from a value that WAS computed. -/
+def DisagreesComputed (i : Input) (cv : Values) : Prop :=
+  (∃ x y, i.etag = some x ∧ cv.etag = some y ∧ x ≠ y) ∨ (∃ x y, i.crc32 = some x ∧ cv.crc32 = some y ∧ x ≠ y) ∨
+  (∃ x y, i.crc32c = some x ∧ cv.crc32c = some y ∧ x ≠ y) ∨ (∃ x y, i.crc64 = some x ∧ cv.crc64 = some y ∧ x ≠ y) ∨
+  (∃ x y, i.sha1 = some x ∧ cv.sha1 = some y ∧ x ≠ y) ∨ (∃ x y, i.sha256 = some x ∧ cv.sha256 = some y ∧ x ≠ y)
+
+theorem fieldBad_strict (x : Sum) (c : Option Sum) (h : c ≠ some x) : fieldBad true (some x) c = true := by
+  cases c with
+  | none => rfl
+  | some y =>
+    simp only [fieldBad, bne_iff_ne, ne_eq]
+    intro e; exact h (by rw [e])
+
+theorem fieldBad_computed (strict : Bool) (x y : Sum) (h : x ≠ y) : fieldBad strict (some x) (some y) = true := by
+  simp [fieldBad, h]
+
+theorem badDigest_strict (i : Input) (cv : Values) (h : Disagrees i cv) : badDigest true (some i) cv = true := by
+  simp only [badDigest, Bool.or_eq_true]
+  rcases h with ⟨x, h1, h2⟩ | ⟨x, h1, h2⟩ | ⟨x, h1, h2⟩ | ⟨x, h1, h2⟩ | ⟨x, h1, h2⟩ | ⟨x, h1, h2⟩ <;>
+    rw [h1] <;> have := fieldBad_strict x _ h2 <;> simp [this]
+
+theorem badDigest_computed (strict : Bool) (i : Input) (cv : Values) (h : DisagreesComputed i cv) :
+    badDigest strict (some i) cv = true := by
+  simp only [badDigest, Bool.or_eq_true]
+  rcases h with ⟨x, y, h1, h2, h3⟩ | ⟨x, y, h1, h2, h3⟩ | ⟨x, y, h1, h2, h3⟩ | ⟨x, y, h1, h2, h3⟩ |
+      ⟨x, y, h1, h2, h3⟩ | ⟨x, y, h1, h2, h3⟩ <;>
+    rw [h1, h2] <;> have := fieldBad_computed strict x y h3 <;> simp [this]
+
+/-- For a streamed body every value is computed, so any disagreement is with a computed value. -/
+theorem disagrees_streamed (i : Input) (d : Digests) (h : Disagrees i d.values) :
+    DisagreesComputed i d.values := by
+  unfold Disagrees at h
+  unfold DisagreesComputed
+  simp only [Digests.values] at h ⊢
+  rcases h with ⟨x, h1, h2⟩ | ⟨x, h1, h2⟩ | ⟨x, h1, h2⟩ | ⟨x, h1, h2⟩ | ⟨x, h1, h2⟩ | ⟨x, h1, h2⟩
+  · exact Or.inl ⟨x, _, h1, rfl, fun e => h2 (by rw [e])⟩
+  · exact Or.inr (Or.inl ⟨x, _, h1, rfl, fun e => h2 (by rw [e])⟩)
+  · exact Or.inr (Or.inr (Or.inl ⟨x, _, h1, rfl, fun e => h2 (by rw [e])⟩))
+  · exact Or.inr (Or.inr (Or.inr (Or.inl ⟨x, _, h1, rfl, fun e => h2 (by rw [e])⟩)))
+  · exact Or.inr (Or.inr (Or.inr (Or.inr (Or.inl ⟨x, _, h1, rfl, fun e => h2 (by rw [e])⟩))))
+  · exact Or.inr (Or.inr (Or.inr (Or.inr (Or.inr ⟨x, _, h1, rfl, fun e => h2 (by rw [e])⟩))))
 
 end Pithos.ObjSums
